@@ -1,16 +1,18 @@
-SPECIFICATION GSpec
+SPECIFICATION Spec
 CONSTANTS
-  Tasks = {1, 2}
-  Queries = {1, 2, 3, 4, 5, 6}
-  Deps <- DepsD
-  Roots <- RootsD
+  Tasks = {1, 2, 3}
+  Queries = {1, 2, 3, 4}
+  Deps <- DepsR3
+  Roots <- RootsR3
   SubscribeLate = FALSE
   MaxAbandon = 0
   SilentAbandon = FALSE
   RegisterLate = FALSE
   MarkCallerOnly = FALSE
-INVARIANT Emit
 INVARIANT SingleFlight
 INVARIANT OncePerEpoch
-VIEW View
+INVARIANT NoOrphanWaiter
+INVARIANT NoStall
+INVARIANT CutOnlyOnCycle
+INVARIANT CutExact
 CHECK_DEADLOCK FALSE
